@@ -5,7 +5,7 @@ CHECKS = {
    text='Each generated design (unit wrappers of every catalogue block emitted five ways -- direct, nested, twice, with parent nets named like the block\'s internal wires, built by a caller that reuses its lists --, '
         'configurations from 1 to 100 bits, sequential blocks, parameter-boundary and wide-control classes, clock drivers not named like their wire, reuse designs, random compositions with '
         'hierarchy, register feedback and wide registers, hand-written bodies) is validated individually: the py4hw simulator and the interpreter of the emitted text run in lockstep from power-up and all '
-        'top-level outputs are compared at power-up, after every input change and after every edge. Held = no disagreement on the programs/comparisons counted in the evidence.',
+        'top-level outputs are compared at power-up, after every input change and after every edge. Held = no disagreement on the programs/comparisons counted in the evidence. Also: block constants taken from a Parameter object owned by an enclosing module 0-2 levels up, with same-named parameters in between.',
    note='Trusted: the E4 reading of IEEE 1364-2005 (DESIGN.md Appendix A, self-tested at setup), zero power-up for uninitialised Verilog state; x sources, multi-clock and inout designs are skipped as indeterminate; unsized literals beyond 32 bits are judged only where the two extreme readings of the standard agree (two interpreters side by side).',
    ref='DESIGN.md section 4 C01'),
  'C07': dict(level='exploration', engine='E2 catalogue + reference models',
@@ -13,7 +13,7 @@ CHECKS = {
    text='Every arithmetic block of the catalogue is executed in the real simulator for every legal width/parameter configuration of the grid; '
         'inputs are exhaustive for small widths and boundary x boundary + random beyond; each output is compared with an independent integer reference. '
         'Every configuration is also built by a caller that reuses the list objects it passed, with one wire shared by several input ports, and with every input driven by a buffer created after the block. '
-        'Held = no disagreement on the evaluations counted in the evidence; nothing is claimed for widths/configurations outside the grid (1..100 bits).',
+        'Held = no disagreement on the evaluations counted in the evidence; nothing is claimed for widths/configurations outside the grid (1..100 bits). Also: histories on one instance that return to an earlier vector (A,B,A) and, for blocks with a domain restriction, A / outside-domain input applied unjudged / A.',
    note='Trusted: the integer references in vlib/catalog.py (written from the docstrings/property text) and the readings listed under assumptions.',
    ref='DESIGN.md section 4 C07'),
  'C08': dict(level='exploration', engine='E2 catalogue + reference models',
@@ -26,7 +26,7 @@ CHECKS = {
    technique='lockstep reference-state-machine monitor over random duty-cycled control histories plus breadth-first walk of the real simulator state space',
    text='Each sequential library block runs in the real simulator in lockstep with an independent pure-Python reference state machine: random control histories with long holds, bursts and '
         'reset storms, and for small configurations a breadth-first walk over the real simulator state space applying every input vector from every reached state. Outputs compared after every edge '
-        '(and pre-edge for input-dependent outputs).',
+        '(and pre-edge for input-dependent outputs). Also: a size family for every block with a size parameter (DelayLine delays up to 100/200, depths, address widths, moduli around powers of two) with reset-while-disabled events.',
    note='Trusted: the reference machines in vlib/seqcat.py; undocumented input combinations (push+pop, shift both ways, double write to one address) are not applied.',
    ref='DESIGN.md section 4 C09'),
  'C10': dict(level='exploration', engine='E2 sequential catalogue + plan generator for gated clock domains',
@@ -39,34 +39,34 @@ CHECKS = {
  'C15': dict(level='exploration', engine='harness probe clockables + WaveDrom decoder',
    technique='invariant-at-hook monitor: probe clockables before and after the Waveform record pre-edge wire values each cycle; recorder contents and decoded WaveDrom rendering must equal the probe log',
    text='Generated recordings (widths 1-64, forced repeats, duplicates, port/wire aliases, clear(), zero cycles, split clk calls) are observed by harness probes that run in the clocking phase; '
-        'Waveform.getDict() and the decoded get_wavedrom() output must equal the probe log sample for sample. Also: clock drivers sharing a name with the system driver or with each other, and recorders inside gated domains.',
+        'Waveform.getDict() and the decoded get_wavedrom() output must equal the probe log sample for sample. Also: clock drivers sharing a name with the system driver or with each other, and recorders inside gated domains. Also: clock-enable wires of 2, 3, 8 bits carrying values above 1.',
    note='Trusted: the probe clockables see the same pre-edge values as the recorder (checked: probes placed before and after must agree, else inconclusive); the WaveDrom decoder written here.',
    ref='DESIGN.md section 4 C15'),
  'C16': dict(level='exploration', engine='schedule generator + shadow models',
    technique='runtime shadow-model monitor over generated control/handshake schedules (back-pressure, back-to-back beats, load while pending, reset/done mid-transfer)',
    text='Axi2Reg and Reg2Axi run under generated schedules obeying the single environment assumption of the property (done only after a completed transfer); per cycle the READY/active, loaded/q, '
-        'VALID-hold, data, LAST, KEEP and sent clauses are checked against a shadow model.',
+        'VALID-hold, data, LAST, KEEP and sent clauses are checked against a shadow model. Also: uninterrupted stalls of 2**k+16 cycles (k up to 20 quick, 21 thorough) for both adapters, judged after every clk(n) chunk.',
    note='Trusted: the shadow models; VALID staying high after an acceptance is counted, not judged (the statement only forbids dropping it early).',
    ref='DESIGN.md section 4 C16'),
  'C17': dict(level='exploration', engine='history monitor at the ready/valid boundaries + software 8N1 receiver',
    technique='offline history checker (accepted vs delivered byte sequences, bounded progress) plus an independent software 8N1 receiver over the recorded line trace',
    text='Serializer -> line -> clock recovery + deserializer, as wired in the HIL wrapper, driven with all 256 byte values and random sequences, producer gaps none/1/random, oblivious receiver pacing, '
         'divider ratios 4..64 incl. odd and non-integer requests. Delivered sequence must equal accepted sequence within 16 bit periods per byte; a software receiver sampling mid-bit at the realised bit '
-        'period must recover the same bytes from the tx trace. Also: large ratios 2**k-2..2**k+2 up to 2**11 (2**13 thorough) and real baud pairs up to 5208 (10416) clocks per bit with a few bytes each, and one long-lived link kept alive past 2**16+2**12 uart ticks (2**17 thorough).',
+        'period must recover the same bytes from the tx trace. Also: large ratios 2**k-2..2**k+2 up to 2**14 (2**17 thorough) and real baud pairs up to 10416 (41666) clocks per bit with a few bytes each, and one long-lived link kept alive past 2**16+2**12 uart ticks (2**17 thorough).',
    note='Trusted: the software receiver; receiver pacing within what the unchanged link tolerates (stalls up to 11 bit periods - 2 clocks, take-cycle swept up to the last legal cycle); liveness restated as bounded progress.',
    ref='DESIGN.md section 4 C17'),
  'C20': dict(level='exploration', engine='command stream generator + per-cycle trace oracle',
    technique='offline trace checker over recorded strobe/handshake traces of generated command streams and response runs',
    text='CMDRequest is fed generated command streams (I/value/O/K commands, 1-8 hex digits, random valid gaps, several wire widths); from per-cycle traces each strobe must pulse exactly once per command '
         'with the transmitted number, K n; must give exactly n clock pulses, no other strobe may move. CMDResponse must emit "=", the value as the requested count of upper-case hex digits MSB first, "!" '
-        'under oblivious consumer pacing, within a progress bound. Also: one pause of 2**k+16 cycles (k up to 17 quick, 20 thorough) at every position inside and between commands and before every response character.',
+        'under oblivious consumer pacing, within a progress bound. Also: one pause of 2**k+16 cycles (k up to 17, plus 18 and 19 inside a command, quick; 20 thorough) at every position inside and between commands and before every response character.',
    note='Trusted: the trace oracle; a strobe pulse is one contiguous high run inside the command window; CMDResponse size is a nibble count.',
    ref='DESIGN.md section 4 C20'),
  'C02': dict(level='translation_validation', engine='E4 verilog interpreter + program generator (vlib/c02.py)',
    technique='translation validation by lockstep co-execution of generated behavioural classes: Python method in the real simulator vs. transpiled always-block module in the /verif interpreter, with a domain filter',
    text='Library behavioural classes and classes generated from a grammar over the supported subset (plus the same grammar with one unsupported or suspect construct injected) are '
         'transpiled by the real generator; each accepted program is validated individually by co-executing the Python method and the emitted module for 32-64 cycles, comparing outputs and integer state '
-        'after every step that stays inside the domain of the statement. Refusals are acceptable; accepted text must be valid and equivalent. A 58-construct corpus (every match pattern kind, statement and expression form; subject steered to listed and unlisted values) is either refused or co-simulated, and every accepted text must assign each declared integer it reads.',
+        'after every step that stays inside the domain of the statement. Refusals are acceptable; accepted text must be valid and equivalent. A 58-construct corpus (every match pattern kind, statement and expression form; subject steered to listed and unlisted values) is either refused or co-simulated, and every accepted text must assign each declared integer it reads. A 25-shape constructor family (state re-assigned, bool/int mixes, non-literal statements) is co-simulated from power-up.',
    note='Trusted: E4 semantics incl. the unbounded-integer shadow evaluation used as domain filter; programs are real .py files (inspect.getsource); after an out-of-domain step the Verilog state is re-synchronised to the Python state.',
    ref='DESIGN.md section 4 C02'),
  'C03': dict(level='exploration', engine='E4 parser + elaborator + well-formedness checker',
@@ -79,7 +79,7 @@ CHECKS = {
  'C12': dict(level='exploration', engine='reference oracles: struct, fractions.Fraction, integers',
    technique='runtime reference-model monitor: helper functions called on exhaustive half-precision patterns and boundary/random single/double patterns, results judged bit-exactly by struct/Fraction references',
    text='All 2**16 half patterns exhaustively, boundary x boundary + random single/double patterns, two\'s complement exhaustive for small widths, FPNum arithmetic compared as exact rationals, FixedPoint helper on '
-        'all small formats exhaustively. Also: object lives of FPNum (in-place mutators x observers; every answer compared with a fresh object of the same components).',
+        'all small formats exhaustively. Also: object lives of FPNum (in-place mutators x observers; every answer compared with a fresh object of the same components). Also: pairs of 100-200-bit operands agreeing in their leading 53+ bits around double midpoints (exact rational comparison).',
    note='Trusted: struct/Fraction references; NaN payloads excepted as stated.',
    ref='DESIGN.md section 4 C12'),
  'C13': dict(level='exploration', engine='exact rational references for the five single-precision blocks',
@@ -90,7 +90,7 @@ CHECKS = {
    ref='DESIGN.md section 4 C13'),
  'C14': dict(level='exploration', engine='exact scaled-integer references',
    technique='runtime reference-model monitor: fixed-point blocks simulated exhaustively over all operand pairs of small formats and boundary/random pairs of wide formats, judged with Fraction arithmetic',
-   text='FixedPointAdd/Sub/Mult/Sign/Comparator for every format (1, iw, fw) with iw+fw <= 7 exhaustively over operand pairs, mixed formats, and wide formats on boundary x boundary + random. Also: operand histories returning to earlier pairs on long-lived instances (a combinational block must answer the same whatever came before).',
+   text='FixedPointAdd/Sub/Mult/Sign/Comparator for every format (1, iw, fw) with iw+fw <= 7 exhaustively over operand pairs, mixed formats, and wide formats on boundary x boundary + random. Also: operand histories returning to earlier pairs on long-lived instances (a combinational block must answer the same whatever came before). Also: every subset of optional comparator outputs the constructor accepts.',
    note='Trusted: the Fraction references; product = floor (bit truncation of the two\'s-complement product).',
    ref='DESIGN.md section 4 C14'),
  'C19': dict(level='exploration', engine='call-history generator over live circuits and never-generated twins',
@@ -104,14 +104,14 @@ CHECKS = {
    technique='runtime reference-model monitor over generated construction sequences with one injected fault (20 fault kinds), plus integrity check over catalogue blocks with single-driver faults',
    text='Generated construction plans (wire creation, instantiation, rename, reparent, interface expansion) are executed on the real library in lockstep with an independent model of names and '
         'drivers; the faulting call must raise and the earlier driver/child/wire must stay in place (compared by identity), fault-free plans must not raise. checkIntegrity is run on every catalogue block '
-        'nested 0-5 levels with all port wires driven (must return) and with exactly one driver removed or one port wire left undriven (must raise); expected verdicts come from the plan. Also: ports re-added on existing primitives after a disconnect (same and new names) with a global one-driver invariant after every step, and extra ports on the special wires of a system (clock, gated, base, derived, other scope).',
+        'nested 0-5 levels with all port wires driven (must return) and with exactly one driver removed or one port wire left undriven (must raise); expected verdicts come from the plan. Also: ports re-added on existing primitives after a disconnect (same and new names) with a global one-driver invariant after every step, and extra ports on the special wires of a system (clock, gated, base, derived, other scope). Also: wires of one name in several parents and refused reparentAndRename moves, wire tables compared after every step.',
    note='Trusted: the plan model; half-registered newcomers of refused calls, BidirWire drivers, detached ports and InOut ports are outside the statement and not judged.',
    ref='DESIGN.md section 4 C11'),
  'C18': dict(level='exploration', engine='child-process schematic builder + object-graph checker (vlib/c18*.py)',
    technique='offline checker over the recorded object graph of Schematic(obj) built in a child process under a step/time watchdog: symbol multiplicity, rectangle disjointness, per-wire connectivity at pin level',
    text='Every structural catalogue block, the FP/fixed-point and sequential structural blocks and generated netlists (fan-out, register feedback incl. self-loops, long forward edges) are placed and '
         'routed by the real Schematic class in a child process; the resulting objs/nets/symbol_matrix are checked: one symbol per child and port, no overlaps, per wire one connected figure touching the '
-        'driving pin and every reading pin and no pin of another wire. A hang is attributed to its case by a watchdog and is a violation (termination is part of the property). Also: several Schematic objects over one hierarchy in one process (parent/child/redraw/sibling/interleaved; every net must end on a symbol of its own drawing) and n-input symbols at fan-ins 2..300.',
+        'driving pin and every reading pin and no pin of another wire. A hang is attributed to its case by a watchdog and is a violation (termination is part of the property). Also: several Schematic objects over one hierarchy in one process (parent/child/redraw/sibling/interleaved; every net must end on a symbol of its own drawing) and n-input symbols at fan-ins 2..300. Also: user subclasses of the fixed-pin library symbols that add ports.',
    note='Trusted: the graph checker; wires with zero or several drivers inside the block are excluded; swallowed internal exceptions are counted, the verdict comes from the resulting graph.',
    ref='DESIGN.md section 4 C18'),
  'C04': dict(level='exploration', engine='E1 hooks + E3 netlist generator (vlib/netgen.py)',
@@ -125,7 +125,7 @@ CHECKS = {
    technique='online trace-specification checker over hooked Wire.put/prepare/settle and leaf clock/propagate events, plus schedule-permutation and clk-splitting twin runs',
    text='Per clock cycle the recorded event trace must satisfy: no wire value changes in the clocking phase, every prepare is followed by a settle installing the last prepared value before any '
         'propagate, Wire.prepared empty at cycle end, no settle without prepare. Designs with 2-7 interconnected sequential leaves are run under all/sampled permutations of the clockable lists and driver '
-        'order and under different splittings of clk(n); all must agree. Non-trivial designs are those where an immediate-write twin of Reg would be order dependent. Also: Simulator.stop() requested at every position of a clk(n) call and while idle, judged by edges performed per call and by n-vs-singles equality.',
+        'order and under different splittings of clk(n); all must agree. Non-trivial designs are those where an immediate-write twin of Reg would be order dependent. Also: Simulator.stop() requested at every position of a clk(n) call and while idle, judged by edges performed per call and by n-vs-singles equality. Also: domains whose drivers differ in phaseOffset with register rings across them; the trajectory must equal that of the same design with every phase 0.',
    note='Trusted: the hook wrappers call the real code first and never change its result; leaf state = scalar and list attributes.',
    ref='DESIGN.md section 4 C05'),
  'C06': dict(level='exploration', engine='E1 hooks (post-conditions on every write, icontract layer when importable) + catalogue/netgen workloads',
